@@ -65,6 +65,21 @@ func vpSameConfig(a, b ExportOptions) bool {
 	return ok
 }
 
+// vpComponentsFollow: the configuration GetExportOptions reports is the one in force inside the
+// components the update re-sizes and re-times (attribute cache capacity, TTL, negative caching and
+// its TTL; directory cache capacity and TTL).
+func vpComponentsFollow(env *vpEnv, o ExportOptions, tag string) {
+	c := env.nfs.attrCache
+	vpAssert(c.maxSize == o.AttrCacheSize, tag+"-attr-cache-capacity-is-the-reported-one")
+	vpAssert(c.ttl == o.AttrCacheTimeout, tag+"-attr-cache-ttl-is-the-reported-one")
+	vpAssert(c.enableNegative == o.CacheNegativeLookups, tag+"-negative-caching-is-the-reported-one")
+	vpAssert(c.negativeTTL == o.NegativeCacheTimeout, tag+"-negative-ttl-is-the-reported-one")
+	if d := env.nfs.dirCache; d != nil {
+		vpAssert(d.maxEntries == o.DirCacheMaxEntries, tag+"-dir-cache-capacity-is-the-reported-one")
+		vpAssert(d.timeout == o.DirCacheTimeout, tag+"-dir-cache-ttl-is-the-reported-one")
+	}
+}
+
 // vpServes: READ, WRITE and LOOKUP are served with the configuration now in force.
 func vpServes(env *vpEnv, hd, hx uint64, tag string) {
 	t := env.nfs.tuning.Load()
@@ -137,9 +152,14 @@ func vpC24Timeout(sym bool, all int, name string, fixed time.Duration) time.Dura
 
 func VPH_C24_export_update() {
 	fs := vpStdTree()
-	env := vpServer(fs, ExportOptions{Squash: "root"})
+	// the components start from non-default settings, so that an update which falls back to the
+	// defaults has something to change in them
+	env := vpServer(fs, ExportOptions{Squash: "root", AttrCacheSize: 3, AttrCacheTimeout: time.Hour,
+		CacheNegativeLookups: true, NegativeCacheTimeout: time.Hour,
+		EnableDirCache: true, DirCacheTimeout: time.Hour, DirCacheMaxEntries: 4, DirCacheMaxDirSize: 5})
 	hd, hx := env.handleFor("/d"), env.handleFor("/d/x")
 	before := env.nfs.GetExportOptions()
+	vpComponentsFollow(env, before, "before")
 
 	g := vpChoose("group", vpC24GCache, vpC24GAll)
 	all := 0
@@ -164,13 +184,15 @@ func VPH_C24_export_update() {
 		ReceiveBufferSize:    vpC24Int(g == vpC24GConn, all, "recvbuffer", 8192),
 		TCPKeepAlive:         vpBool("keepalive"), TCPNoDelay: vpBool("nodelay"),
 	}
-	switch vpChoose("squash", 0, 2) {
+	switch vpChoose("squash", 0, 3) {
 	case 0:
 		n.Squash = ""
 	case 1:
 		n.Squash = "root"
 	case 2:
 		n.Squash = "all" // a change: must be rejected as a whole
+	case 3:
+		n.Squash = "ROOT" // another spelling is still a different value: accepted as a whole or rejected as a whole
 	}
 	withTimeouts := true
 	if vpAnd(g != vpC24GTimeoutsA, g != vpC24GTimeoutsB) {
@@ -194,9 +216,10 @@ func VPH_C24_export_update() {
 	after := env.nfs.GetExportOptions()
 	if err != nil {
 		vpReach("rejected")
-		vpAssert(n.Squash == "all", "only-squash-change-rejected")
+		vpAssert(vpOr(n.Squash == "all", n.Squash == "ROOT"), "only-squash-change-rejected")
 		vpKnown("K-C24-rejected-update-applies-tuning", true)
 		vpAssert(vpSameConfig(before, after), "rejected-update-leaves-configuration-unchanged")
+		vpComponentsFollow(env, before, "after-rejected")
 		vpServes(env, hd, hx, "after-rejected")
 		vpKnownClear()
 		return
@@ -237,6 +260,7 @@ func VPH_C24_export_update() {
 	vpAssert(vpAnd(after.Secure == n.Secure, after.MaxFileSize == n.MaxFileSize), "policy-fields-applied")
 	// the caches were really resized / re-timed
 	vpAssert(env.nfs.attrCache.MaxSize() > 0, "attr-cache-capacity-positive")
+	vpComponentsFollow(env, after, "after-update")
 	vpKnown("K-C24-zero-fields-not-defaulted", true)
 	vpServes(env, hd, hx, "after-update")
 }
@@ -273,13 +297,15 @@ func VPH_C24_policy_update() {
 	hd, hx := env.handleFor("/d"), env.handleFor("/d/x")
 	before := env.nfs.GetExportOptions()
 	p := PolicyOptions{ReadOnly: false, Secure: vpBool("secure"), MaxFileSize: vpI64("maxfilesize"), EnableRateLimiting: false}
-	switch vpChoose("squash", 0, 2) {
+	switch vpChoose("squash", 0, 3) {
 	case 0:
 		p.Squash = "root"
 	case 1:
 		p.Squash = "all"
 	case 2:
 		p.Squash = ""
+	case 3:
+		p.Squash = "Root"
 	}
 	err := env.nfs.UpdatePolicyOptions(p)
 	after := env.nfs.GetExportOptions()
